@@ -85,6 +85,149 @@ theorem writeAll_err_is_first_failure (msg : Bytes) : ∀ (evs : List WriteEv) (
             · exact h2 e he
           · rw [h3]; simp only [List.length_cons]; omega
 
+/-! ### every failing outcome surfaces, once -/
+def WriteEv.isFault : WriteEv → Bool
+  | .accept 0 => true
+  | .accept (_ + 1) => false
+  | .zero => true
+  | .fail _ => true
+
+def faults (l : List WriteEv) : Nat := (l.filter WriteEv.isFault).length
+def countFailed (rs : List SendR) : Nat := (rs.filter (· = SendR.failed)).length
+
+theorem faults_append (a b : List WriteEv) : faults (a ++ b) = faults a + faults b := by simp [faults]
+theorem faults_of_clean (l : List WriteEv) (h : ∀ e ∈ l, e.isFault = false) : faults l = 0 := by
+  simp only [faults, List.length_eq_zero_iff, List.filter_eq_nil_iff]
+  intro e he; rw [h e he]; simp
+
+/-- **The script one send consumes**: successful writes, then — unless the send completed or the script ran out — exactly one
+failing outcome (`Ok(0)` or an error), which ends the call. -/
+theorem writeAll_consumed (msg : Bytes) : ∀ (evs : List WriteEv) (pos : Nat) (sink : Bytes) (used : Nat),
+    ∃ pre, (∀ e ∈ pre, e.isFault = false) ∧
+      (((writeAll msg evs pos sink used).out = .done ∨ (writeAll msg evs pos sink used).out = .blocked) ∧
+          evs = pre ++ (writeAll msg evs pos sink used).evs ∨
+       (∃ b, b.isFault = true ∧ evs = pre ++ b :: (writeAll msg evs pos sink used).evs ∧
+          ((writeAll msg evs pos sink used).out = .brokenPipe ∨ ∃ k, (writeAll msg evs pos sink used).out = .err k))) := by
+  intro evs
+  induction evs with
+  | nil =>
+    intro pos sink used
+    unfold writeAll
+    split
+    · exact ⟨[], by simp, Or.inl ⟨Or.inl rfl, rfl⟩⟩
+    · exact ⟨[], by simp, Or.inl ⟨Or.inr rfl, rfl⟩⟩
+  | cons ev evs ih =>
+    intro pos sink used
+    unfold writeAll
+    split
+    · exact ⟨[], by simp, Or.inl ⟨Or.inl rfl, rfl⟩⟩
+    · cases ev with
+      | zero => exact ⟨[], by simp, Or.inr ⟨.zero, rfl, rfl, Or.inl rfl⟩⟩
+      | fail k => exact ⟨[], by simp, Or.inr ⟨.fail k, rfl, rfl, Or.inr ⟨k, rfl⟩⟩⟩
+      | accept n =>
+        simp only
+        split
+        · rename_i hn; subst hn
+          exact ⟨[], by simp, Or.inr ⟨.accept 0, rfl, rfl, Or.inl rfl⟩⟩
+        · rename_i hn
+          obtain ⟨pre, hpre, hcase⟩ := ih (pos + min n (msg.length - pos)) (sink ++ (msg.drop pos).take (min n (msg.length - pos))) (used + 1)
+          have hclean : (WriteEv.accept n).isFault = false := by
+            cases n with
+            | zero => exact absurd rfl hn
+            | succ m => rfl
+          refine ⟨.accept n :: pre, ?_, ?_⟩
+          · intro e he
+            rcases List.mem_cons.mp he with rfl | he
+            · exact hclean
+            · exact hpre e he
+          · rcases hcase with ⟨ho, he⟩ | ⟨b, hb, he, ho⟩
+            · exact Or.inl ⟨ho, by rw [List.cons_append, ← he]⟩
+            · exact Or.inr ⟨b, hb, by rw [List.cons_append, ← he], ho⟩
+
+theorem countFailed_cons (r : SendR) (rs : List SendR) :
+    countFailed (r :: rs) = countFailed rs + (if r = .failed then 1 else 0) := by
+  cases r <;> simp [countFailed]
+theorem countFailed_refused (ms : List Bytes) : countFailed (ms.map fun _ => SendR.refused) = 0 := by
+  induction ms with
+  | nil => rfl
+  | cons m ms ih => simp [countFailed_cons, ih]
+theorem faults_cons (b : WriteEv) (l : List WriteEv) : faults (b :: l) = faults l + (if b.isFault then 1 else 0) := by
+  cases hb : b.isFault <;> simp [faults, hb]
+
+/-- one step of a session, in terms of the result record of the send -/
+theorem sendSeq_cons (m : Bytes) (ms : List Bytes) (st : SeqSt) (hp : st.poisoned = false) (r : SendRes)
+    (hr : writeAll m st.evs 0 st.sink 0 = r) :
+    sendSeq (m :: ms) st =
+      if r.out = .blocked then ([.failed], ⟨r.sink, r.poisoned, r.evs⟩)
+      else ((if r.out = .done then SendR.ok else .failed) :: (sendSeq ms ⟨r.sink, r.poisoned, r.evs⟩).1,
+            (sendSeq ms ⟨r.sink, r.poisoned, r.evs⟩).2) := by
+  subst hr
+  simp only [sendSeq, hp, Bool.false_eq_true, if_false]
+
+/-- **C09: no failing outcome is swallowed, none is invented.** Over any sequence of sends from an unpoisoned sender and any
+script: the part of the script the session consumed contains exactly as many failing outcomes (`Ok(0)`, errors of any kind) as sends
+reported an error — plus at most one for a send that never returned because the script ran out. In particular a failing outcome is
+never retried silently. -/
+theorem sendSeq_faults_surface : ∀ (ms : List Bytes) (st : SeqSt), st.poisoned = false →
+    ∃ consumed, st.evs = consumed ++ (sendSeq ms st).2.evs ∧
+      faults consumed ≤ countFailed (sendSeq ms st).1 ∧ countFailed (sendSeq ms st).1 ≤ faults consumed + 1 := by
+  intro ms
+  induction ms with
+  | nil => intro st _; exact ⟨[], by simp [sendSeq], by simp [faults, countFailed, sendSeq], by simp [faults, countFailed, sendSeq]⟩
+  | cons m ms ih =>
+    intro st hp
+    obtain ⟨pre, hpre, hcase⟩ := writeAll_consumed m st.evs 0 st.sink 0
+    have hspec := writeAll_spec m st.evs 0 st.sink 0 (by omega)
+    simp only [List.take_zero, List.append_nil] at hspec
+    obtain ⟨j, _, _, _, hdone, _, _, _⟩ := hspec
+    generalize hr : writeAll m st.evs 0 st.sink 0 = r at hcase hdone
+    rw [sendSeq_cons m ms st hp r hr]
+    have hz := faults_of_clean pre hpre
+    by_cases hb : r.out = .blocked
+    · rw [if_pos hb]
+      rcases hcase with ⟨_, he⟩ | ⟨b, _, _, ho⟩
+      · exact ⟨pre, he, by rw [hz]; exact Nat.zero_le _, by simp [countFailed]⟩
+      · rw [hb] at ho; rcases ho with ho | ⟨k, ho⟩ <;> cases ho
+    · rw [if_neg hb]
+      by_cases hq : r.poisoned = true
+      · -- poisoned: every later send is refused and consumes nothing
+        have hrest := sendSeq_poisoned ms ⟨r.sink, r.poisoned, r.evs⟩ hq
+        have hnd : r.out ≠ .done := by
+          intro hd; rw [(hdone hd).2] at hq; cases hq
+        rcases hcase with ⟨ho, _⟩ | ⟨b, hbf, he, _⟩
+        · rcases ho with ho | ho
+          · exact absurd ho hnd
+          · exact absurd ho hb
+        · refine ⟨pre ++ [b], ?_, ?_, ?_⟩
+          · rw [hrest.2]; simp [he]
+          · rw [hrest.1, countFailed_cons, countFailed_refused, faults_append, hz, faults_cons, hbf]; simp [hnd, faults]
+          · rw [hrest.1, countFailed_cons, countFailed_refused, faults_append, hz, faults_cons, hbf]; simp [hnd, faults]
+      · have hq' : r.poisoned = false := by
+          cases h : r.poisoned with
+          | false => rfl
+          | true => exact absurd h hq
+        obtain ⟨c2, hc2, hlo, hhi⟩ := ih ⟨r.sink, r.poisoned, r.evs⟩ hq'
+        simp only at hc2
+        rcases hcase with ⟨ho, he⟩ | ⟨b, hbf, he, ho⟩
+        · have hd : r.out = .done := by
+            rcases ho with ho | ho
+            · exact ho
+            · exact absurd ho hb
+          refine ⟨pre ++ c2, ?_, ?_, ?_⟩
+          · show st.evs = (pre ++ c2) ++ (sendSeq ms ⟨r.sink, r.poisoned, r.evs⟩).2.evs
+            rw [he, List.append_assoc]
+            exact congrArg (fun x => pre ++ x) hc2
+          · rw [countFailed_cons, faults_append, hz, if_pos hd]; simpa using hlo
+          · rw [countFailed_cons, faults_append, hz, if_pos hd]; simpa using hhi
+        · have hnd : r.out ≠ .done := by
+            rcases ho with ho | ⟨k, ho⟩ <;> rw [ho] <;> simp
+          refine ⟨pre ++ b :: c2, ?_, ?_, ?_⟩
+          · show st.evs = (pre ++ b :: c2) ++ (sendSeq ms ⟨r.sink, r.poisoned, r.evs⟩).2.evs
+            rw [he, List.append_assoc, List.cons_append]
+            exact congrArg (fun x => pre ++ b :: x) hc2
+          · rw [countFailed_cons, faults_append, hz, faults_cons, hbf, if_neg hnd]; simp; omega
+          · rw [countFailed_cons, faults_append, hz, faults_cons, hbf, if_neg hnd]; simp; omega
+
 def ReadEv.mapKind (f : Nat → Nat) : ReadEv → ReadEv
   | .fail k => .fail (f k)
   | .deliver n => .deliver n
@@ -252,3 +395,4 @@ end FV
 #print axioms FV.recv_kind_blind
 #print axioms FV.recv_err_is_pipes_error
 #print axioms FV.apoll_kind_blind
+#print axioms FV.sendSeq_faults_surface
